@@ -116,7 +116,14 @@ def _snap(arrays):
 def arrays_equal(a, b):
     if not isinstance(a, dict) or not isinstance(b, dict) or sorted(a) != sorted(b):
         return False
-    return all(np.array_equal(a[k], b[k]) and np.asarray(a[k]).dtype == np.asarray(b[k]).dtype for k in a)
+    def same(x, y):
+        x, y = np.asarray(x), np.asarray(y)
+        if x.dtype != y.dtype or x.shape != y.shape:
+            return False
+        # a NaN on both sides is the same answer (1xN grids normalise the agent's row as 0/0 with numpy coordinates)
+        return bool(np.array_equal(x, y, equal_nan=True)) if np.issubdtype(x.dtype, np.floating) else bool(np.array_equal(x, y))
+
+    return all(same(a[k], b[k]) for k in a)
 
 
 class MirrorSim(Sim):
